@@ -422,9 +422,11 @@ func c07Run(c *vh.Ctx, cs c07Case) (clause, detail string, nontrivial bool) {
 	if cs.Act == "setcycle" {
 		refOK = false // a self-referential binding has no canonical rendering to compare; trap-checked only
 	}
-	if cs.State == "nil-bindings" && cs.Base != "go-native" {
-		// a script handed nil bindings sees `_.bindings` undefined; what the generated programs
-		// then do is interpreter behaviour the reference does not model (still trap-checked)
+	if cs.State == "nil-bindings" {
+		// absent bindings are not the same as empty bindings for the engine (a branch without pattern and
+		// guard hands on the nil bindings, which reads as "no bindings"; a script sees `_.bindings`
+		// undefined); the property asks for totality there, not for a particular transition, so these
+		// cases are trap-checked only
 		refOK = false
 	}
 	if cs.Call == "walk" && err != nil {
